@@ -1,6 +1,7 @@
 package an
 
 import (
+	"go/token"
 	"regexp"
 	"strings"
 
@@ -156,6 +157,35 @@ func runC13(p *Prog, r *Report) {
 			gpc := cl.Ev("go", "core.(*dialer).pipeClosed")
 			q.Req(R, "dialer-notified", len(gpc) == 1 && len(gpc[0].Guard) == 1 && gpc[0].Guard[0] == "recv.d != nil", gpc.Pos(p), "dialer.pipeClosed on every path when p.d != nil", "go p.d.pipeClosed() is missing or has extra conditions: "+guardsOf(gpc))
 		}
+	}
+	// the hook that is told of an event is the socket's hook as read under the socket lock —
+	// that value and nothing else (a hook variable that some path replaces, e.g. by nil when a
+	// flag says "the application was not told of the attach", loses the event on that path)
+	{
+		n := 0
+		for _, fname := range []string{"addPipe", "remPipe"} {
+			fn := p.Func("internal/core", "socket", fname)
+			if fn == nil {
+				continue
+			}
+			for _, f := range WithClosures(fn) {
+				EachInstr(f, func(in ssa.Instruction) {
+					c := CallOf(in)
+					if c == nil || c.IsInvoke() || !isHookType(c.Value.Type()) {
+						return
+					}
+					n++
+					ok, why := hookIsSocketHook(c.Value, map[ssa.Value]bool{})
+					r.Check(ok, R, p.FuncName(f)+"/hook-value@"+Desc(c.Args[0]), p.InstrPos(in), "the hook called is s.pipehook as read under the lock", "the hook called here is not simply the socket's hook: "+why+": on that path the application is not told of the event (a Detached that never comes leaves its bookkeeping of attached pipes wrong for ever)")
+				})
+			}
+		}
+		r.Count("c13.hook_calls", n)
+		r.Floor(R, "c13.hook_calls", 3)
+	}
+	// what a pipe says about where it came from never changes after it was built
+	for _, fld := range []string{"d", "l", "s", "p", "id"} {
+		q.OnlyIn("C13.9/provenance", "writers-of-pipe."+fld+"-after-construction", p.PostPubWritersOf("internal/core.pipe."+fld), []string{}, nil)
 	}
 	wr := p.WritersOf("internal/core.pipe.added")
 	q.OnlyIn(R, "writers-of-added", wr, []string{"internal/core.(*socket).addPipe"}, []string{"internal/core.(*socket).addPipe"})
@@ -521,4 +551,97 @@ func pipeObjectDef(in ssa.Instruction) ssa.Instruction {
 		}
 	}
 	return nil
+}
+
+// hookIsSocketHook: v (the callee of a hook call) is the value of socket.pipehook: a load of
+// that field, possibly through a captured variable or a merge all of whose sources are.
+func hookIsSocketHook(v ssa.Value, seen map[ssa.Value]bool) (bool, string) {
+	if seen[v] {
+		return true, ""
+	}
+	seen[v] = true
+	switch x := v.(type) {
+	case *ssa.UnOp:
+		if x.Op != token.MUL {
+			return false, "computed by " + Desc(v)
+		}
+		switch a := x.X.(type) {
+		case *ssa.FieldAddr:
+			if fieldName(a.X.Type(), a.Field) == "pipehook" {
+				return true, ""
+			}
+			return false, "read from " + Desc(a)
+		case *ssa.FreeVar:
+			// the captured variable: every store the enclosing function makes to it
+			fn := x.Parent()
+			par := fn.Parent()
+			if par == nil {
+				return false, "free variable without parent"
+			}
+			idx := -1
+			for i, fv := range fn.FreeVars {
+				if fv == a {
+					idx = i
+				}
+			}
+			ok, why := true, ""
+			EachInstr(par, func(in ssa.Instruction) {
+				mc, isMc := in.(*ssa.MakeClosure)
+				if !isMc || mc.Fn != fn || idx < 0 || idx >= len(mc.Bindings) {
+					return
+				}
+				if al, isAl := mc.Bindings[idx].(*ssa.Alloc); isAl {
+					EachInstr(par, func(i2 ssa.Instruction) {
+						if st, isSt := i2.(*ssa.Store); isSt && st.Addr == al {
+							if o, w := hookIsSocketHook(st.Val, seen); !o {
+								ok, why = false, w
+							}
+						}
+					})
+				}
+			})
+			return ok, why
+		case *ssa.Alloc:
+			ok, why := true, ""
+			EachInstr(x.Parent(), func(i2 ssa.Instruction) {
+				if st, isSt := i2.(*ssa.Store); isSt && st.Addr == a {
+					if o, w := hookIsSocketHook(st.Val, seen); !o {
+						ok, why = false, w
+					}
+				}
+			})
+			return ok, why
+		}
+		return false, "read from " + Desc(x.X)
+	case *ssa.FreeVar:
+		fn := x.Parent()
+		par := fn.Parent()
+		if par == nil {
+			return false, "free variable without parent"
+		}
+		ok, why := true, ""
+		for i, fv := range fn.FreeVars {
+			if fv != x {
+				continue
+			}
+			EachInstr(par, func(in ssa.Instruction) {
+				if mc, isMc := in.(*ssa.MakeClosure); isMc && mc.Fn == fn && i < len(mc.Bindings) {
+					if o, w := hookIsSocketHook(mc.Bindings[i], seen); !o {
+						ok, why = false, w
+					}
+				}
+			})
+		}
+		return ok, why
+	case *ssa.Phi:
+		for _, e := range x.Edges {
+			if o, w := hookIsSocketHook(e, seen); !o {
+				return false, w
+			}
+		}
+		return true, ""
+	case *ssa.Const:
+		return false, "it is the constant " + Desc(v) + " on some path"
+	}
+	return false, "it is " + Desc(v)
 }
